@@ -279,6 +279,48 @@ def concrete_failures(Cmod, r):
         r.violation(dict(monitor='C12 rejected assignments', what=b), b, witness=dict(python=True, input=b))
 
 
+def transform_frame_obligations(T, mods):
+    """read-only uses of a transform (forward, backward, jacobian on an input vector) leave its parameter values, constants and bounds
+    unchanged: Engine P runs the real methods on symbolic parameters / constants / input; per path the vectors afterwards equal the ones before"""
+    from contracts.py_transform import CLASSES
+    from props.C01 import SymTransform
+    obls = []; npaths = 0
+    x = sym('x')
+    for spec in CLASSES:
+        kw = spec['variants'][0]
+        st = SymTransform(T, spec['name'], kw)
+        for op in ('forward', 'backward', 'jacobian'):
+            def run():
+                tr = st.instance()
+                before = (list(tr._params._values), list(tr._constants._values), tr._params._mins.copy(), tr._params._maxs.copy(), tr._params._defaults.copy(),
+                          tr._constants._mins.copy(), tr._constants._maxs.copy(), tr._constants._defaults.copy(), list(tr._params._names), list(tr._constants._names))
+                raised = None
+                try:
+                    getattr(tr, op)(vec([x]))
+                except (engp.Unsupported, engp.PathLimit):
+                    raise
+                except Exception as e:          # a rejected input: the frame must hold all the same
+                    raised = type(e).__name__
+                after = (list(tr._params._values), list(tr._constants._values), tr._params._mins, tr._params._maxs, tr._params._defaults,
+                         tr._constants._mins, tr._constants._maxs, tr._constants._defaults, list(tr._params._names), list(tr._constants._names))
+                return before, after, raised
+            with engp.patched(*mods):
+                paths = engp.explore(run, base=st.base, allowed_exc=(), max_paths=256)
+            npaths += len(paths)
+            for k, p in enumerate(paths):
+                before, after, raised = p.result
+                hyp = st.base + p.pc + p.axioms
+                tag = 'transform.py/%s.%s/path%d' % (spec['name'], op, k)
+                goals = [z3.BoolVal(len(before[0]) == len(after[0]) and len(before[1]) == len(after[1]))]
+                for a, b in list(zip(before[0], after[0])) + list(zip(before[1], after[1])):
+                    goals.append(same(a, b))
+                conc = all(np.array_equal(np.asarray(a, dtype=float), np.asarray(b, dtype=float), equal_nan=True) for a, b in zip(before[2:8], after[2:8])) and before[8] == after[8] and before[9] == after[9]
+                goals.append(z3.BoolVal(bool(conc)))
+                obls.append(pproof.PObligation(tag + '/frame', 'post', '%s.%s leaves the parameter values, constants, bounds, defaults and names of the transform unchanged%s' % (spec['name'], op, ' (input rejected with %s)' % raised if raised else ''),
+                                               hyp, z3.And(*goals), st.names + ['x']))
+    return obls, npaths
+
+
 def transform_readonly(T, r):
     """read-only uses of a transform leave its parameter values, constants and bounds unchanged (concrete heap check per class)"""
     bad = []; n = 0
@@ -384,6 +426,7 @@ def run(tier):
         for cfg in cfgs:
             obls, n = op_obligations(C, mods, cfg); allobl += obls; npaths += n
         concrete_failures(C, r); transform_readonly(T, r); histories(C, r)
+        o2, n2 = transform_frame_obligations(T, (T, C, dutils)); allobl += o2; npaths += n2
         pproof.discharge(r, allobl, file='src/hydrodiy/data/containers.py', fn_of=lambda ob: ob.id.split('/')[1])
         r.functions = [dict(file='containers.py', fn='Vector.' + f, trusted=[], nonterminating=[], cutloops=0, unrolled=0, terminating=0)
                        for f in ('__init__', '__checkvalues__', 'values.setter', '__setattr__', '__setitem__', 'reset', 'clone', 'to_dict', 'from_dict')]
